@@ -192,7 +192,7 @@ def execute_step(m: Machine, step, prop_of):
             e.model.scale(step["s"])
             receivers.append(e)
         elif op == "reduce_to_ids":
-            ids = [i for i in step["ids"] if i < e.model.n]
+            ids = [i for i in step["ids"] if -e.model.n <= i < e.model.n]
             if not ids:
                 return None
             e.obj.reduce_to_ids(np.array(ids, dtype=int)
@@ -1001,7 +1001,13 @@ def gen_step(m: Machine, rng, uid):
             # whose time stamps then stop being ascending - evo's check()
             # must say so)
             if rng.random() < (0.35 if not e.stamped else 0.08):
-                shape = rng.choice(["permute", "repeat", "swap", "reverse"])
+                shape = rng.choice(["permute", "repeat", "swap", "reverse",
+                                    "negative", "negative"])
+                if shape == "negative":
+                    # Python-style indices from the end: [0, 10, -1]
+                    ids = [i - n if rng.random() < 0.4 else i for i in ids]
+                    if all(i >= 0 for i in ids):
+                        ids[-1] = ids[-1] - n
                 if shape == "permute":
                     rng.shuffle(ids)
                 elif shape == "repeat":
